@@ -60,10 +60,17 @@ func (c *Calcium) newWorkloadSender(ctx context.Context, ID string, resp chan *t
 	utils.SentryGo(func() {
 		var writer *io.PipeWriter
 		curFile := ""
+		failed := false
 		for data := range sender.buffer {
+			if failed {
+				// keep draining, otherwise the producer blocks on this workload's full buffer
+				// and the other workloads never get the rest of the file
+				continue
+			}
 			if curFile != "" && curFile != data.Dst {
 				log.Warnf(ctx, "[newWorkloadExecutor] receive different files %s, %s", curFile, data.Dst)
-				break
+				failed = true
+				continue
 			}
 			// ready to send
 			if curFile == "" {
@@ -74,6 +81,9 @@ func (c *Calcium) newWorkloadSender(ctx context.Context, ID string, resp chan *t
 				utils.SentryGo(func(ID, name string, size int64, content io.Reader, uid, gid int, mode int64) func() {
 					return func() {
 						defer wg.Done()
+						// whatever the outcome nobody reads the pipe after this: pending and later
+						// writes must fail instead of blocking the whole transfer forever
+						defer pr.Close()
 						if err := sender.calcium.withWorkloadLocked(ctx, ID, false, func(ctx context.Context, workload *types.Workload) error {
 							err := errors.WithStack(workload.Engine.VirtualizationCopyChunkTo(ctx, ID, name, size, content, uid, gid, mode))
 							resp <- &types.SendMessage{ID: ID, Path: name, Error: err}
@@ -87,7 +97,7 @@ func (c *Calcium) newWorkloadSender(ctx context.Context, ID string, resp chan *t
 			n, err := writer.Write(data.Chunk)
 			if err != nil || n != len(data.Chunk) {
 				log.Errorf(ctx, err, "[newWorkloadExecutor] send file to engine err, file = %s", curFile)
-				break
+				failed = true
 			}
 		}
 		writer.Close()
